@@ -70,3 +70,74 @@ func VerifC05_DenseOverlapPredicate() {
 	verifAssert(verifImplies(panicked, share), "element-disjoint equal-stride windows must not panic")
 	verifReach("end")
 }
+
+
+// VerifC05_VecOverlapMixedInc: views with DIFFERENT increments. The property
+// promises nothing about rejecting disjoint views here (the code is
+// documented as conservative), but a shared element must always panic.
+func VerifC05_VecOverlapMixedInc() {
+	capN := verifParam("veccap", 10)
+	maxN := verifParam("vecn", 4)
+	back := verifFloats("back", capN)
+	inc1 := verifChoose("inc1", 1, 3)
+	inc2 := verifChoose("inc2", 1, 3)
+	o1 := verifInt("o1", 0, capN-1)
+	n1 := verifInt("n1", 1, maxN)
+	o2 := verifInt("o2", 0, capN-1)
+	n2 := verifInt("n2", 1, maxN)
+	l1 := (n1-1)*inc1 + 1
+	l2 := (n2-1)*inc2 + 1
+	verifAssume(o1+l1 <= capN)
+	verifAssume(o2+l2 <= capN)
+	v := VecDense{mat: blas64.Vector{N: n1, Inc: inc1, Data: back[o1 : o1+l1]}}
+	a := blas64.Vector{N: n2, Inc: inc2, Data: back[o2 : o2+l2]}
+	panicked, fault, _ := verifCatch(func() { v.checkOverlap(a) })
+	share := false
+	for j := 0; j < maxN; j++ {
+		for k := 0; k < maxN; k++ {
+			share = verifOr(share, verifAnd(verifAnd(j < n1, k < n2), o1+j*inc1 == o2+k*inc2))
+		}
+	}
+	verifAssert(!fault, "checkOverlap never faults")
+	verifAssert(verifImplies(share, panicked), "vector views sharing an element must panic (any increments)")
+	verifReach("end")
+}
+
+// VerifC05_DenseOverlapMixedStride: windows with different strides sharing an
+// element must panic (the code may also reject disjoint ones: documented).
+func VerifC05_DenseOverlapMixedStride() {
+	side := verifParam("denseside", 3)
+	capN := side * side
+	back := verifFloats("back", capN)
+	s1 := verifChoose("stride1", 1, side)
+	s2 := verifChoose("stride2", 1, side)
+	r1 := verifInt("r1", 1, side)
+	c1 := verifInt("c1", 1, side)
+	r2 := verifInt("r2", 1, side)
+	c2 := verifInt("c2", 1, side)
+	o1 := verifInt("o1", 0, capN-1)
+	o2 := verifInt("o2", 0, capN-1)
+	verifAssume(verifAnd(c1 <= s1, c2 <= s2))
+	l1 := (r1-1)*s1 + c1
+	l2 := (r2-1)*s2 + c2
+	verifAssume(verifAnd(o1+l1 <= capN, o2+l2 <= capN))
+	a := blas64.General{Rows: r1, Cols: c1, Stride: s1, Data: back[o1 : o1+l1]}
+	b := blas64.General{Rows: r2, Cols: c2, Stride: s2, Data: back[o2 : o2+l2]}
+	panicked, fault, _ := verifCatch(func() { checkOverlap(a, b) })
+	share := false
+	for i1 := 0; i1 < side; i1++ {
+		for j1 := 0; j1 < side; j1++ {
+			in1 := verifAnd(i1 < r1, j1 < c1)
+			p1 := o1 + i1*s1 + j1
+			for i2 := 0; i2 < side; i2++ {
+				for j2 := 0; j2 < side; j2++ {
+					in2 := verifAnd(i2 < r2, j2 < c2)
+					share = verifOr(share, verifAnd(verifAnd(in1, in2), p1 == o2+i2*s2+j2))
+				}
+			}
+		}
+	}
+	verifAssert(!fault, "checkOverlap never faults")
+	verifAssert(verifImplies(share, panicked), "windows sharing an element must panic (any strides)")
+	verifReach("end")
+}
